@@ -26,7 +26,9 @@ class C14(BaseCheck):
           '<= 64 bytes, random k-cuts otherwise, each piece delivered with an inter-chunk delay so the '
           'real readAll loops; the server side is the Thrift library\'s Processor which must decode the '
           'same method/args; every 3rd value case then issues 2-7 concurrent calls on a fresh client against a slow '
-          'server (decoded requests must be exactly the calls made, each caller gets its own reply). non-trivial = at least 2 chunkings completed; distinct by (interface, '
+          'server (decoded requests must be exactly the calls made, each caller gets its own reply); every 4th case also '
+          'calls a same-named method of two services that extend the same base service (different argument structs) '
+          'from one process, in a seeded order. non-trivial = at least 2 chunkings completed; distinct by (interface, '
           'method, value classes, outcome kind, chunking class)')
   ANCHORS = ('scales.thrift.serializer:MessageSerializer.SerializeThriftCall',
              'scales.thrift.serializer:MessageSerializer.DeserializeThriftCall',
@@ -34,7 +36,7 @@ class C14(BaseCheck):
   REQUIRED_ANCHORS = ANCHORS
   REQUIRED_CLASSES = ('outcome:value', 'outcome:declared-exc', 'outcome:app-exc', 'outcome:void',
                       'iface:hello', 'iface:verif', 'iface:ext', 'chunk:1cut', 'chunk:2cut', 'chunk:kcut',
-                      'text:nonascii', 'text:empty', 'concurrent')
+                      'text:nonascii', 'text:empty', 'concurrent', 'two-services')
   ASSUMPTIONS = ('interfaces: the repository\'s hello.Hello plus a hand-written module in the shape the '
                  'Thrift compiler emits (py:dynamic); no Thrift compiler is available offline',)
   QUICK_CASES = 480
@@ -239,6 +241,41 @@ class C14(BaseCheck):
             {'method': 'concurrent'})
           break
       client2.DispatcherClose()
+    # ---- two services in one process whose interfaces extend the same base service and share a
+    # method name with different argument structs: each client must marshal with its own classes
+    if idx % 4 == 1:
+      from vlib.gen.verifsvc import Ext2Service
+      classes.add('two-services')
+      plan['chunks'] = None
+      plan['delay'] = 0.001
+      self.port += 2
+      srv_a = servers.ThriftServer(self.net, 'th', self.port - 1, Policy(), ExtService)
+      srv_b = servers.ThriftServer(self.net, 'th', self.port, Policy(), Ext2Service)
+      cl_a = Thrift.NewClient(ExtService.Iface, 'tcp://th:%d' % (self.port - 1), timeout=30)
+      cl_b = Thrift.NewClient(Ext2Service.Iface, 'tcp://th:%d' % self.port, timeout=30)
+      order = ['a', 'b', 'a', 'b']
+      rng.shuffle(order)
+      for which in order:
+        text = gen_text(rng)
+        nval = rng.randint(-5, 1000)
+        out.obligations += 2
+        try:
+          if which == 'a':
+            got, want, sv, wcall = cl_a.extra(text), 'extra:' + text, srv_a, ('extra', (text,))
+          else:
+            got, want, sv, wcall = cl_b.extra(nval, text), 'extra2:%d:%s' % (nval, text), srv_b, ('extra', (nval, text))
+        except BaseException as e:  # noqa
+          out.violate('two-services:call-failed', 'extra() on service %s raised %r' % (which, e), {'method': 'extra'})
+          continue
+        req = sv.requests[-1] if sv.requests else None
+        if req is None or req['call'] != wcall or not req['consumed_all']:
+          out.violate('two-services:request-decoded-differently', 'service %s: Thrift library decoded %r, caller passed %r '
+                      '(call order %s)' % (which, req and req['call'], wcall, ''.join(order)), {'method': 'extra'})
+        elif got != want:
+          out.violate('two-services:reply-misreported', 'service %s: extra%r returned %r, expected %r' % (
+            which, wcall[1], got, want), {'method': 'extra'})
+      cl_a.DispatcherClose()
+      cl_b.DispatcherClose()
     client.DispatcherClose()
     env.advance(0.01)
     for e in env.errors:
